@@ -266,7 +266,7 @@ fn check_ann(
     Ok(())
 }
 
-fn oracle_compare(l: &Ontology, r: &Ontology) -> Result<(), String> {
+pub fn oracle_compare(l: &Ontology, r: &Ontology) -> Result<(), String> {
     let (lt, rt) = (term_views(l), term_views(r));
     // `changed_hpo_terms` is documented on resolved parents; with a parent id that is not a term
     // the resolving iterator panics: nothing to recompute then
